@@ -5,10 +5,10 @@ T = "Tinode.Props.C01."
 PROP = dict(
     id="C01",
     level_text="Kernel-checked Lean theorems over the transcribed publish and load paths: an accepted message gets lastId+1, the same number in the acknowledgement, in every delivered copy, in the loaded counter, the stored counter and the stored message; a failed save leaves memory, sessions and stored messages untouched; the invariant tying loaded counter, stored counter and stored message numbers (strictly increasing, bounded by the counters) is preserved by a publish under every fault plan; a load resumes from the stored counter, above every stored number. The clause 'a failed save consumes no number' is proved FALSE after a reload (witness by decide, replayed on the code: known finding).",
-    level_note="Invariant preservation is proved for publish and load, not for every other request (those do not write counters in the model; that frame property is checked by the differential run and the monitor, not by a theorem). Crash points: the monitor checks 'strictly above everything shown' on crash/restart histories; the theorem covers the store writes of one publish.",
+    level_note="Over histories (Props/C01h.lean): for EVERY sequence, of any length, of publishes (by anybody, permitted or not, under any fault or crash plan), unloads and loads of the topic the invariant holds and the messages stored earlier are a prefix of those stored later - no number is issued twice (history_inv, numbers_unique_over_histories, by induction over the sequence). Invariant preservation is proved for publish and load, not for every other request (those do not write counters in the model; that frame property is checked by the differential run and the monitor, not by a theorem). Crash points: the monitor checks 'strictly above everything shown' on crash/restart histories; the theorem covers the store writes of one publish.",
     technique='Lean 4 proof (handler-level theorems + invariant preservation, omega/List lemmas, negation witness by decide) + differential correspondence of the world model + history monitor',
-    modules=["TinodeVerif.Props.C01"],
-    theorems=[T + n for n in ['accepted_number', 'failed_save_consumes_nothing_in_memory', 'pub_preserves_inv', 'load_resumes_above', 'failed_save_consumes_number_after_reload']],
+    modules=["TinodeVerif.Props.C01", "TinodeVerif.Props.C01h"],
+    theorems=[T + n for n in ['accepted_number', 'failed_save_consumes_nothing_in_memory', 'pub_preserves_inv', 'load_resumes_above', 'failed_save_consumes_number_after_reload', 'step_inv', 'history_inv', 'numbers_unique_over_histories']],
     streams=[world.world_stream("C01")],
     seeds=dict(quick=1, thorough=4),
     rule="random histories of 30-120 requests per case (420 cases quick, 600 thorough per seed, every third a clause scenario with random parameters) over 4 users, 7 sessions (two per user, "
